@@ -8,20 +8,25 @@ use vrt::arena::{self, cap};
 use vrt::{catch, rmwlog};
 
 pub fn pair<H: DShape, T: DShape>(g: &mut Grid, maxn: usize) {
-    if std::mem::size_of::<T>() == 0 {
-        return; // from_header_and_iter refuses zero-sized elements up front (C06)
-    }
     for n in 0..=maxn {
         let mut recs: Vec<usize> = (0..=n + 2).collect();
         recs.push(usize::MAX);
         recs.push(usize::MAX / 2 + 1);
+        // lengths that only differ from the true one in high bits (wrap-around of byte arithmetic)
+        for k in 56..=63u32 {
+            recs.push(n.wrapping_add(1usize << k));
+        }
         for rec in recs {
             for shared in [false, true] {
                 let case = format!("into_thin: Arc<HeaderSlice<HeaderWithLength<{}>,[{};{}]>> recorded length {} co-owner={}", H::NAME, T::NAME, n, rec, shared);
                 vrt::begin_execution();
                 g.case(format!("into_thin|{}|{}|{}|{}|{}", H::NAME, T::NAME, n.min(2), if rec == n { "eq" } else if rec < n { "lt" } else { "gt" }, shared), || case.clone());
                 let (h0, t0) = (H::drops(), T::drops());
-                let fat = cap(|| Arc::from_header_and_iter(HeaderWithLength::new(H::make(1), rec), (0..n).map(|i| T::make(i as u32 + 2))));
+                // from_header_and_vec is the constructor that also accepts zero-sized elements
+                let fat = cap(|| {
+                    let v: Vec<T> = (0..n).map(|i| T::make(i as u32 + 2)).collect();
+                    Arc::from_header_and_vec(HeaderWithLength::new(H::make(1), rec), v)
+                });
                 let blk = fat.heap_ptr() as usize;
                 let co = if shared { Some(cap(|| fat.clone())) } else { None };
                 let r0 = rmwlog::len();
